@@ -253,7 +253,7 @@ RuleFamily == {
         AddMember(AddMember(ReplyHost, RH2("on_err", "error", <<P("e", "String"), P("tag", "Binary")>>)),
                   RH2("on_ok", "success", <<DataP(A("sv::data", "foo")), P("tag", "Binary")>>))),
     Ok(AddMember(AddMember(ReplyHost, RH2("on_err", "error", <<P("e", "String"), P("tag", "Binary")>>)),
-                 RH2("on_ok", "success", <<DataP(A("sv::data", "raw, opt")), P("tag", "Binary")>>)), "K_r2_ok"),
+                 RH2("on_ok", "success", <<DataP(A("sv::data", "raw")), P("tag", "Binary")>>)), "K_r2_ok"),
     Bad(RuleHost, "X_features", "unknown_feature", [RuleHost EXCEPT !.attrs = @ \o <<A("sv::features", "bogus")>>]),
     Bad(RuleHost, "X_customarg", "unknown_sv_custom_argument", [RuleHost EXCEPT !.attrs = @ \o <<A("sv::custom", "foo = Empty")>>]),
     Bad(RuleHost, "X_messages", "trailing_tokens_in_sv_messages", [RuleHost EXCEPT !.attrs = @ \o <<A("sv::messages", "i1 as Iface1 garbage")>>]),
@@ -265,8 +265,29 @@ RuleFamily == {
     Bad(RuleHost, "X_epnoinst", "entry_points_without_instantiate",
         [WithMembers(RuleHost, <<New, RuleHost.members[3]>>) EXCEPT !.macro = "entry_points"]) }
 
+(* where the diagnostic of a rule must point: the members (methods) any of which carries the offence; none = the item itself *)
+(* (its attributes or header), i.e. anywhere in the item                                                                  *)
+SitesOf(rule) ==
+    CASE rule = "new_with_parameter" -> <<"new">>
+      [] rule = "two_instantiate" -> <<"instantiate", "instantiate2">>
+      [] rule = "two_migrate" -> <<"migrate", "migrate2">>
+      [] rule = "instantiate_in_interface" -> <<"instantiate">>
+      [] rule = "migrate_in_interface" -> <<"migrate">>
+      [] rule \in {"unknown_message_kind", "unknown_sv_msg_argument", "two_sv_msg_on_one_method", "pattern_argument",
+                   "sylvia_attribute_on_ctx"} -> <<"foo">>
+      [] rule = "sv_attr_on_instantiate" -> <<"instantiate">>
+      [] rule = "query_with_aliased_result_and_no_resp" -> <<"ask">>
+      [] rule \in {"unknown_reply_on", "reply_without_payload", "data_marker_not_first", "data_marker_on_error_handler",
+                   "parameter_after_raw_payload", "parameter_before_raw_payload", "unknown_sv_data_argument",
+                   "sv_data_instantiate_with_raw", "sv_payload_without_argument", "unknown_sv_payload_argument"} -> <<"on_done">>
+      [] rule \in {"parameter_after_raw_payload_in_second_method", "unknown_sv_payload_argument_in_second_method",
+                   "unknown_sv_data_argument_in_second_method"} -> <<"on_ok">>
+      [] rule = "parameter_before_raw_payload_in_second_method" -> <<"on_err">>
+      [] OTHER -> <<>>
+WithSites(it) == it @@ [sites |-> SitesOf(it.rule)]
+
 (* ---------------------------------------------------------------- model *)
-Items == TLCEval(SetToSeq(EpFamily \cup PtFamily \cup FwFamily \cup GenFamily \cup RuleFamily))
+Items == TLCEval(SetToSeq({WithSites(it) : it \in EpFamily \cup PtFamily \cup FwFamily \cup GenFamily \cup RuleFamily}))
 
 VARIABLES item,      \* index into Items
           stage,     \* "source" | "expanded"
